@@ -112,7 +112,7 @@ def keys_of(op):
     name = op[0]
     if name in ("set", "setattr"):
         return [op[1]]
-    if name in ("del", "pop", "get", "contains"):
+    if name in ("del", "delattr", "pop", "get", "contains"):
         return [op[1]]
     if name == "update":
         return [k for k, _ in M.m_items(mk_model(op[1]))]
@@ -174,7 +174,7 @@ def step(ctx, st, op, observe=True):
     via_dict = any(M.through_dict(st.model, k) for k in keys_of(op))
 
     def report(kind, detail):
-        opclass = {"get": "read", "contains": "read", "del": "remove", "pop": "remove"}.get(name, "write")
+        opclass = {"get": "read", "contains": "read", "del": "remove", "delattr": "remove", "pop": "remove"}.get(name, "write")
         sig = f"C11/through-dict/{opclass}/{kind}" if via_dict else f"C11/{name}/{kind}"
         if ctx.finding(sig, {"op": op, "detail": detail, "state": repr(st.model)[:300]}):
             raise Stop()
@@ -194,6 +194,10 @@ def step(ctx, st, op, observe=True):
         rm = outcome(lambda: M.m_set(model, op[1], mv), True)
     elif name == "del":
         ri = outcome(lambda: real.__delitem__(op[1]))
+        snap = copy.deepcopy(model)
+        rm = outcome(lambda: M.m_del(model, op[1]), True)
+    elif name == "delattr":  # what setattr stored, delattr removes (method-name keys included)
+        ri = outcome(lambda: delattr(real, op[1]))
         snap = copy.deepcopy(model)
         rm = outcome(lambda: M.m_del(model, op[1]), True)
     elif name == "pop":
@@ -414,6 +418,8 @@ def alphabet(full):
             ops.append(["update_key", 3, k])
             ops.append(["update_unset", 4, k])
         ops.append(["del", k])
+        if full and k in ("a", "items"):
+            ops.append(["delattr", k])
         if full or k in ("a", "a.items"):
             ops.append(["pop", k])
     ops.append(["update", {"$ns": {"a": {"$ns": {"b": 5}}}}])
@@ -463,7 +469,9 @@ def strategies():
                       st.dictionaries(st.sampled_from(["k", "j", "items", "a"]), scalar, max_size=2),
                       st.just({"k": {"j": 2}}), st.lists(st.dictionaries(st.just("k"), scalar, max_size=1), max_size=2),
                       # containers that mix mappings with other values
-                      st.sampled_from([[{"k": 1}, 2], [1, {"k": 2}, None], {"p": {"x": 1}, "q": 3}, [[{"k": 1}]]]))
+                      st.sampled_from([[{"k": 1}, 2], [1, {"k": 2}, None], {"p": {"x": 1}, "q": 3}, [[{"k": 1}]]]),
+                      # namespaces as values inside containers, one and two container levels down
+                      st.sampled_from([[{"$ns": {"k": 1}}], [[{"$ns": {"k": 1}}]], {"p": [{"$ns": {"x": 1}}, 2]}, [({"$ns": {"items": 3}},)], [{"$ns": {"k": 1}}, 2, {"j": {"$ns": {}}}]]))
     name = st.one_of(st.sampled_from(ORD), st.sampled_from(ORD), st.sampled_from(CLASH), st.sampled_from(CLASH), st.sampled_from(PRIVATE))
     nsv = st.recursive(st.dictionaries(name, leafv, max_size=3).map(lambda d: {"$ns": d}),
                        lambda inner: st.dictionaries(name, st.one_of(leafv, inner), max_size=3).map(lambda d: {"$ns": d}), max_leaves=6)
@@ -553,7 +561,7 @@ def make_machine(ctx):
             ks = existing_keys(self.st.model)
             return ks[i % len(ks)] if ks else "a"
 
-        @rule(i=st.integers(0, 60), what=st.sampled_from(["get", "contains", "del", "pop"]))
+        @rule(i=st.integers(0, 60), what=st.sampled_from(["get", "contains", "del", "pop", "delattr"]))
         def read_or_remove_existing(self, i, what):
             self.do([what, self.existing(i)])
 
